@@ -1,7 +1,7 @@
 (* C05 — deciding obligations. Statements only, closed by the lemmas proved in Circ/*Proofs.v. *)
 From Coq Require Import ZArith List Bool Permutation.
 From VF Require Import Circ.Moments Circ.Placement Circ.Insert Circ.BatchEdit Circ.History
-  Circ.MomentsProofs Circ.InsertProofs Circ.PlacementProofs Circ.CacheProofs Circ.BatchProofs Circ.OrderProofs Circ.HistoryProofs.
+  Circ.MomentsProofs Circ.InsertProofs Circ.PlacementProofs Circ.CacheProofs Circ.BatchProofs Circ.OrderProofs Circ.TotalProofs Circ.HistoryProofs.
 Import ListNotations.
 Open Scope Z_scope.
 
@@ -195,6 +195,27 @@ Theorem C05_insert_at_frontier_order_refuted :
     uid_moms (moms c') = [[1; 3]; [2]].
 Proof. exact insert_at_frontier_order_refuted. Qed.
 Print Assumptions C05_insert_at_frontier_order_refuted.
+
+(* insert never raises: any strategy, index, operation tree, on a circuit whose cache (if any) agrees
+   with its moments - in particular after every history without with_tags; hence D6 without the
+   side condition *)
+Theorem C05_insert_never_raises : forall c i its s, cache_ok c -> exists c' z, insert c i its s = (c', inl z).
+Proof. exact insert_total. Qed.
+Print Assumptions C05_insert_never_raises.
+
+Theorem C05_insert_never_raises_in_history : forall h i its s,
+  Forall not_with_tags h -> exists c' z, insert (run empty_circuit h) i its s = (c', inl z).
+Proof. exact history_insert_never_raises. Qed.
+Print Assumptions C05_insert_never_raises_in_history.
+
+Theorem C05_summaries_valid_unconditional : forall h, Forall not_with_tags h -> sums_ok (run empty_circuit h).
+Proof. exact history_sums_ok_unconditional. Qed.
+Print Assumptions C05_summaries_valid_unconditional.
+
+(* batches produced by _group_into_moment_compatible: a Moment alone, or pairwise non-conflicting operations *)
+Theorem C05_grouping_compatible : forall its, Forall batch_ok (group_into_moment_compatible its).
+Proof. exact group_batches_ok. Qed.
+Print Assumptions C05_grouping_compatible.
 
 (* non-vacuity of the hypotheses *)
 Example C05_hypotheses_example :
